@@ -179,8 +179,12 @@ def install(eng, cfg=None):
                 q.log.append(('step', kind, s_.sql, dict(s_.binds), 'error %s' % rc)); return rc
         else:
             q.changes = None; q.rowid = None
-        if q.txn: q.w_txn += 1
-        else: q.w_auto += 1
+            if 'row_exists' in cfg and kind == 'write' and not s_.sql.strip().upper().startswith('INSERT'):
+                q.changes = 1 if cfg['row_exists'] else 0
+        effect = not (q.changes == 0 and kind == 'write')       # a write that matched no row changed nothing
+        if effect:
+            if q.txn: q.w_txn += 1
+            else: q.w_auto += 1
         q.log.append(('step', kind, s_.sql, dict(s_.binds), 'ok'))
         return SQLITE_DONE
     M['sqlite3_step'] = m_step
